@@ -93,6 +93,23 @@ Section C02.
       forall x, fst r m x -! dt *! sumf (fun j => A m j *! snd r j 0 x) 1 m = u 0 x.
   Proof. exact (rk_stage_form kO kI kadd kmul ksub kopp keqb Rth keqb_true M dt t0 nodes solve feval). Qed.
 
+
+  (* imex_1st_order_mass.update_nodes (mass matrix on the left and, on level 0, on u0; sums over columns 0..M in the
+     code, whose column-0 terms cancel because node 0 is never updated) *)
+  Theorem C02_imex_mass_matrix_form : forall QI QE (massop : V -> V) level0 u f tau,
+    mass_solver_contract kmul ksub solve feval massop ->
+    let r := mass_update kO kadd kmul ksub M dt t0 nodes Q solve feval QI QE massop level0 u f tau in
+    let u0m := if level0 then massop (u 0) else u 0 in
+    (forall j, j = 0 \/ M < j -> fst r j = u j /\ snd r j = f j) /\
+    forall m, 1 <= m <= M ->
+      snd r m = feval (tn m) (fst r m) /\
+      forall x,
+        massop (fst r m) x -! dt *! sumf (fun j => QI m j *! snd r j 0 x) 1 m
+                          -! dt *! sumf (fun j => QE m j *! snd r j 1 x) 1 (m - 1)
+        = u0m x +! dt *! sumf (fun j => (Q m j -! QI m j) *! f j 0 x) 1 M
+                +! dt *! sumf (fun j => (Q m j -! QE m j) *! f j 1 x) 1 M +! tauval tau m x.
+  Proof. exact (mass_sweep_matrix_form kO kI kadd kmul ksub kopp Rth M dt t0 nodes Q solve feval). Qed.
+
   Theorem C02_integrate_is_dtQF : forall np (f : nat -> nat -> V) m x,
     integrate kO kadd kmul M dt Q np f m x = dt *! sumf (fun j => Q m j *! ftot kO kadd np (f j) x) 1 M.
   Proof. exact (integrate_is_dtQF kO kI kadd kmul ksub kopp Rth M dt Q). Qed.
@@ -118,6 +135,7 @@ Print Assumptions C02_imex_matrix_form.
 Print Assumptions C02_explicit_matrix_form.
 Print Assumptions C02_multi_implicit_two_stage_form.
 Print Assumptions C02_runge_kutta_stage_form.
+Print Assumptions C02_imex_mass_matrix_form.
 Print Assumptions C02_integrate_is_dtQF.
 Print Assumptions C02_end_point_copy.
 Print Assumptions C02_end_point_quadrature.
